@@ -138,9 +138,115 @@ struct Program {
     negated: bool,
     /// the typer narrows the untyped literal to single precision
     narrow_to_f32: bool,
+    /// a template context: an untyped float literal may be printed either as written or narrowed to the `float` the
+    /// context names (the typer's conversion, C13); every other kind must keep its kind
+    convertible: bool,
+    /// the module declares a pipeline and is compiled in pipeline mode (entry point, its attributes, its globals)
+    pipeline: bool,
+    /// a cross-kind form: the untyped literal is folded into this float kind
+    folded_to: Option<&'static str>,
 }
 
-fn build_program(ctx: &str, lit: &str, rng_split: usize) -> Result<Program, String> {
+/// Declaration / statement forms a literal can be written in (wave 6): `@T` = the scalar type the literal's suffix
+/// names, `@V` = its 2-vector, `@L` = the literal.  (name, integer literals only, source, text in front of the printed literal)
+/// Tried and not applicable: default template arguments (`default template arguments are not supported on functions`, struct
+/// templates are `UnimplementedStructTemplate` in both generators), enum-typed template arguments (`(E)7` is not a constant
+/// expression), bit-field widths (do not parse).
+pub const TEMPLATES: &[(&str, bool, &str, &str)] = &[
+    ("ret", false, "@T rf_zq() { return @L; }\n", "    return "),
+    ("callarg", false, "void g_zq(@T a_zq) {}\nvoid f_zq() { g_zq(@L); }\n", "    g_zq("),
+    ("defarg", false, "@T df_zq(@T a_zq = @L) { return a_zq; }\nvoid f_zq() { df_zq(); }\n", " a_zq = "),
+    ("defarg2", false, "@T df_zq(int n_zq, @T a_zq = @L, @T b_zq = @L) { return b_zq; }\nvoid f_zq() { df_zq(1); }\n", " b_zq = "),
+    ("protoarg", false, "@T df_zq(@T a_zq = @L);\n@T df_zq(@T a_zq = @L) { return a_zq; }\nvoid f_zq() { df_zq(); }\n", " a_zq = "),
+    ("method", false, "struct S_zq { @T m_zq(@T a_zq = @L) { return a_zq; } };\n", " a_zq = "),
+    ("nsinit", false, "namespace N_zq { static const @T g_zq = @L; }\nnamespace N_zq { static const @T h_zq = g_zq; }\n", " g_zq = "),
+    ("arrinit", false, "static const @T a_zq[2] = { @L, @L };\n", " a_zq[2] = { "),
+    ("arrinit2", false, "static const @T a_zq[3] = { @L, @L, @L };\nvoid f_zq() { a_zq[2]; }\n", " a_zq[3] = { "),
+    ("local", false, "void f_zq() { @T v_zq = @L; }\n", " v_zq = "),
+    ("localc", false, "void f_zq() { const @T v_zq = @L; v_zq; }\n", " v_zq = "),
+    ("gvar", false, "static @T g_zq = @L;\nvoid f_zq() { g_zq; }\n", " g_zq = "),
+    ("binop", false, "void f_zq(@T x_zq) { x_zq + @L; }\n", "    x_zq + "),
+    ("tern", false, "void f_zq(bool c_zq, @T x_zq) { c_zq ? @L : x_zq; }\n", "    c_zq ? "),
+    ("ctor", false, "void f_zq() { @V(@L, @L); }\n", "2("),
+    ("swz", false, "void f_zq() { (@L).xx; }\n", "    "),
+    ("assign", false, "void f_zq(@T x_zq) { x_zq = @L; }\n", "    x_zq = "),
+    ("forinit", false, "void f_zq() { for (@T i_zq = @L; i_zq < @L; ) {} }\n", " i_zq = "),
+    ("case", true, "void f_zq(int x_zq) { switch (x_zq) { case @L: break; default: break; } }\n", "        case "),
+    ("attr", true, "[numthreads(@L, 1, 1)]\nvoid f_zq() {}\n", "numthreads("),
+    ("unroll", true, "void f_zq() { [unroll(@L)] for (int i_zq = 0; i_zq < 4; ++i_zq) {} }\n", "unroll("),
+    ("larr", true, "void f_zq() { float a_zq[@L]; }\n", " a_zq["),
+    ("garr", true, "static float a_zq[@L];\n", " a_zq["),
+    ("parr", true, "void f_zq(float a_zq[@L]) {}\n", " a_zq["),
+    ("arr2", true, "struct S_zq { float a_zq[2][@L]; };\n", " a_zq[2]["),
+    ("index", true, "void f_zq(float a_zq[64]) { a_zq[@L]; }\n", "    a_zq["),
+    ("pattr", true, "[numthreads(@L, 1, 1)]\nvoid cs_zq() {}\nPipeline P_zq { ComputeShader = cs_zq; }\n", "numthreads(|per_threadgroup("),
+    ("pgvar", false, "static @T g_zq = @L;\n[numthreads(8, 1, 1)]\nvoid cs_zq() { g_zq; }\nPipeline P_zq { ComputeShader = cs_zq; }\n", " g_zq = "),
+    ("plocal", false, "[numthreads(8, 1, 1)]\nvoid cs_zq() { @T v_zq = @L; }\nPipeline P_zq { ComputeShader = cs_zq; }\n", " v_zq = "),
+    ("retneg", false, "@T rf_zq() { return -@L; }\n", "    return "),
+    ("defargneg", false, "@T df_zq(@T a_zq = -@L) { return a_zq; }\nvoid f_zq() { df_zq(); }\n", " a_zq = "),
+    ("arrinitneg", false, "static const @T a_zq[2] = { -@L, -@L };\n", " a_zq[2] = { "),
+    ("callargneg", false, "void g_zq(@T a_zq) {}\nvoid f_zq() { g_zq(-@L); }\n", "    g_zq("),
+    ("caseneg", true, "void f_zq(int x_zq) { switch (x_zq) { case -@L: break; default: break; } }\n", "        case "),
+    ("tdarr", true, "typedef float A_zq[@L];\nstruct S_zq { A_zq m_zq; };\n", " m_zq["),
+    ("gsarr", true, "groupshared float a_zq[@L];\nvoid f_zq() { a_zq[0]; }\n", "(&a_zq)[|float a_zq["),
+    ("ifc", false, "void f_zq() { if (@L) {} }\n", "    if ("),
+    ("whilec", false, "void f_zq() { while (@L) {} }\n", "    while ("),
+    ("forstep", false, "void f_zq(@T x_zq) { for (; x_zq < @L; x_zq += @L) {} }\n", " x_zq < "),
+    ("plus", false, "void f_zq() { +@L; }\n", "    +"),
+    ("comma", false, "void f_zq(@T x_zq) { (x_zq, @L); }\n", "    x_zq, "),
+    ("swzbare", false, "void f_zq() { @L.xx; }\n", "    "),
+    // cross-kind forms: the context names another scalar type than the literal's suffix; the typer folds the untyped literal
+    // into it (`xh*`: half, `xf*`: float, `xd*`: double); the value must survive (integers exactly, floats narrowed once)
+    ("xhlocal", false, "void f_zq() { half v_zq = @L; }\n", " v_zq = "),
+    ("xhret", false, "half rf_zq() { return @L; }\n", "    return "),
+    ("xhdefarg", false, "half df_zq(half a_zq = @L) { return a_zq; }\nvoid f_zq() { df_zq(); }\n", " a_zq = "),
+    ("xhinit", false, "static const half g_zq = @L;\n", " g_zq = "),
+    ("xflocal", false, "void f_zq() { float v_zq = @L; }\n", " v_zq = "),
+    ("xfcallarg", false, "void g_zq(float a_zq) {}\nvoid f_zq() { g_zq(@L); }\n", "    g_zq("),
+    ("xfarrinit", false, "static const float a_zq[2] = { @L, @L };\n", " a_zq[2] = { "),
+    ("xfbinop", false, "void f_zq(float x_zq) { x_zq + @L; }\n", "    x_zq + "),
+    ("xdlocal", false, "void f_zq() { double v_zq = @L; }\n", " v_zq = "),
+    ("xdinit", false, "static const double g_zq = @L;\n", " g_zq = "),
+    ("enum2", true, "enum E_zq { Z_zq, A_zq = @L, B_zq };\nstatic const int g_zq = (int)B_zq;\n", "A_zq = "),
+];
+
+/// not printed by the Metal generator for a module without entry point: a mutable global becomes a parameter of the
+/// functions that use it (its initialiser belongs to the entry point), an unused global is dropped, `numthreads` belongs to
+/// an entry point, `[unroll(n)]` is a hint Metal has no spelling for
+const MSL_ABSENT: &[&str] = &["gvar", "garr", "attr", "unroll"];
+
+fn template_of(ctx: &str) -> Option<&'static (&'static str, bool, &'static str, &'static str)> {
+    TEMPLATES.iter().find(|t| t.0 == ctx)
+}
+
+/// the longest prefix that can be a printed literal: `[-]` then letters, digits, `.`, `#`, `_`; a conversion `(type)` the
+/// typer made explicit in front of it is skipped and a parenthesised literal is opened
+fn literal_prefix(text: &str) -> Option<String> {
+    let mut t = text.trim_start();
+    loop {
+        if let Some(r) = t.strip_prefix('(') {
+            let close = r.find(')')?;
+            let inner = &r[..close];
+            if inner.starts_with(|c: char| c.is_ascii_digit() || c == '-') {
+                t = inner;
+                break;
+            }
+            t = r[close + 1..].trim_start();
+        } else {
+            break;
+        }
+    }
+    let neg = t.starts_with('-');
+    let body = if neg { &t[1..] } else { t };
+    let body = body.strip_prefix("E_zq::").unwrap_or(body);
+    let n = body.bytes().take_while(|c| c.is_ascii_alphanumeric() || *c == b'.' || *c == b'#' || *c == b'_').count();
+    if n == 0 {
+        return None;
+    }
+    Some(format!("{}{}", if neg { "-" } else { "" }, &body[..n]))
+}
+
+fn build_program(ctx: &str, lit: &str, rng_split: usize, msl: bool) -> Result<Program, String> {
     let src = ref_numeric(lit.as_bytes());
     let kind: &'static str = match &src {
         RefNum::Int { kind, .. } => kind,
@@ -149,7 +255,7 @@ fn build_program(ctx: &str, lit: &str, rng_split: usize) -> Result<Program, Stri
     };
     let is_int = matches!(src, RefNum::Int { .. });
     let main = |body: &str| vec![("main.rssl".to_string(), body.to_string())];
-    let mut p = Program { files: Vec::new(), defines: Vec::new(), want_kind: Some(kind), negated: false, narrow_to_f32: false };
+    let mut p = Program { files: Vec::new(), defines: Vec::new(), want_kind: Some(kind), negated: false, narrow_to_f32: false, convertible: false, pipeline: false, folded_to: None };
     match ctx {
         "stmt" => p.files = main(&format!("void f_zq() {{ {}; }}\n", lit)),
         "neg" => {
@@ -245,7 +351,55 @@ fn build_program(ctx: &str, lit: &str, rng_split: usize) -> Result<Program, Stri
                 &lit[k..]
             ));
         }
-        _ => return Err("unknown context".into()),
+        _ => {
+            let Some(&(_, int_only, tpl, _)) = template_of(ctx) else {
+                return Err("unknown context".into());
+            };
+            if msl && MSL_ABSENT.contains(&ctx) {
+                return Err("this declaration has no counterpart in the Metal text of a module without entry point".into());
+            }
+            let (ty, vec) = match kind {
+                "Int" => ("int", "int2"),
+                "IntU32" => ("uint", "uint2"),
+                "Float" | "Float32" => ("float", "float2"),
+                "Float16" => ("half", "half2"),
+                "Float64" => ("double", "double2"),
+                _ => return Err("no scalar type for a 64-bit integer literal".into()),
+            };
+            if let RefNum::Int { value, kind } = &src {
+                let max = if int_only { 1u64 << 16 } else if *kind == "Int" { i32::MAX as u64 } else { u32::MAX as u64 };
+                if value.to_u64().is_none_or(|v| v > max || (int_only && v == 0)) {
+                    return Err("outside the context's type the typer converts the value (C13)".into());
+                }
+            } else if int_only {
+                return Err("integer contexts only".into());
+            }
+            // the typer may fold the literal into the type the context names (C13's conversion): the printed literal
+            // is then the converted constant; only the value is compared in the integer-only contexts
+            p.want_kind = if int_only { None } else { Some(kind) };
+            p.convertible = true;
+            if ctx.ends_with("neg") {
+                if kind == "IntU32" {
+                    return Err("unary minus on an unsigned literal is arithmetic (C13), not a spelling".into());
+                }
+                p.negated = true;
+            }
+            p.pipeline = tpl.contains("Pipeline ");
+            if ctx.starts_with('x') {
+                let to = match &ctx[..2] {
+                    "xh" => "Float16",
+                    "xf" => "Float32",
+                    _ => "Float64",
+                };
+                // untyped literals only (a suffixed literal in another type's context is an arithmetic conversion, C13);
+                // `float` from an untyped float is the `local` / `callarg` … forms
+                if !(kind == "Int" || (kind == "Float" && to != "Float32")) {
+                    return Err("cross-kind forms are for untyped literals".into());
+                }
+                p.folded_to = Some(to);
+            }
+            p.files = main(&tpl.replace("@T", ty).replace("@V", vec).replace("@L", lit));
+        }
     }
     Ok(p)
 }
@@ -278,7 +432,21 @@ fn extract(ctx: &str, text: &str) -> Option<String> {
             let t = after("    return ")?.trim().strip_suffix(';')?.to_string();
             Some(t.strip_prefix("(int)").unwrap_or(&t).to_string())
         }
-        _ => None,
+        "swz" | "swzbare" => {
+            let i = lines.iter().position(|l| l.contains("f_zq("))?;
+            let l = lines.get(i + 1)?.trim().strip_suffix(';')?;
+            // HLSL keeps the swizzle of a scalar, Metal writes the vector constructor
+            match l.strip_suffix(".xx") {
+                Some(x) => literal_prefix(x),
+                None => literal_prefix(l.strip_suffix(')')?.split_once("2(")?.1),
+            }
+        }
+        _ => {
+            // alternatives separated by `|`: Metal spells the thread group size of an entry point
+            // `[[max_total_threads_per_threadgroup(x * y * z)]]` and a groupshared array as a reference parameter
+            let rest = template_of(ctx)?.3.split('|').find_map(|n| after(n));
+            literal_prefix(&rest?)
+        }
     }
 }
 
@@ -297,14 +465,15 @@ pub fn run_emit(field: &str, lit: &str, hist: &mut Hist) -> (String, String) {
     };
     // the split position of `paste` is a function of the literal, so that a request replays identically
     let split = lit.bytes().fold(7usize, |a, b| a.wrapping_mul(31).wrapping_add(b as usize));
-    let prog = match build_program(ctx, lit, split) {
+    let prog = match build_program(ctx, lit, split, tgt == Tgt::Msl) {
         Ok(p) => p,
         Err(why) => return (String::new(), format!("SKIP:{}", why)),
     };
     let mut inc = MemFiles(prog.files.clone());
     let defs: Vec<(&str, &str)> = prog.defines.iter().map(|(a, b)| (a.as_str(), b.as_str())).collect();
     let r = guard(|| {
-        rssl::compile(rssl::CompileArgs::new("main.rssl", &mut inc, tgt.target()).no_pipeline_mode().defines(&defs))
+        let args = rssl::CompileArgs::new("main.rssl", &mut inc, tgt.target()).defines(&defs);
+        rssl::compile(if prog.pipeline { args } else { args.no_pipeline_mode() })
     });
     match r {
         Err(p) => (format!("!panic {}", p), format!("FAIL:panic {}", p)),
@@ -332,7 +501,7 @@ pub fn run_emit(field: &str, lit: &str, hist: &mut Hist) -> (String, String) {
                     RefNum::Float { kind, .. } => kind,
                     _ => "",
                 };
-                if tgt == Tgt::Msl && (kind == "Float64" || (ctx == "init" && kind == "Float")) {
+                if tgt == Tgt::Msl && (kind == "Float64" || (ctx == "init" && kind == "Float") || ctx.starts_with("xd")) {
                     "SKIP:rejected by the front end (double on Metal)".to_string()
                 } else {
                     format!("FAIL:emit literal {} is not a double but was rejected as UnsupportedDouble ({})", lit, tgt.name())
@@ -345,6 +514,9 @@ pub fn run_emit(field: &str, lit: &str, hist: &mut Hist) -> (String, String) {
         Ok(Ok(ps)) => {
             let text: String = ps.iter().map(|p| String::from_utf8_lossy(&p.data).to_string()).collect();
             hist.add("emit.compiled");
+            if std::env::var_os("C10_SHOW_OUTPUT").is_some() {
+                eprintln!("{}", text);
+            }
             match extract(ctx, &text) {
                 None => (one_line(&text), "FAIL:emit the literal's statement was not found in the output".into()),
                 Some(printed) => {
@@ -380,6 +552,41 @@ fn emit_oracle(lit: &str, printed: &str, tgt: Tgt, prog: &Program, hist: &mut Hi
     let Some(b) = parse_printed(printed, tgt) else {
         return format!("FAIL:emit literal {} printed as {} which is not a numeric literal", lit, printed);
     };
+    if let Some(to) = prog.folded_to {
+        // the exact value of the source literal as a double (an `int` literal is below 2^31: exact), narrowed once for half / float
+        let src64 = match &a {
+            RefNum::Float { bits64, .. } => *bits64,
+            RefNum::Int { value, .. } => match value.to_u64() {
+                Some(v) => ref_nearest64(format!("{}", v).as_bytes(), 0),
+                None => return "SKIP:source integer beyond 64 bits".into(),
+            },
+            RefNum::NotNumeric => return "SKIP:source text is not one numeric literal".into(),
+        };
+        let want = narrowed(to, src64);
+        return match &b.num {
+            RefNum::Float { kind: k2, bits64: b2 } => {
+                let got = if b.any_float_kind { narrowed(to, *b2) } else { narrowed(k2, *b2) };
+                if matches!(&a, RefNum::Float { kind: k1, bits64: b1 } if k1 == k2 && b1 == b2) && !b.neg && !b.any_float_kind {
+                    // not folded: the literal stays as written (seen for the default argument of a `half` parameter)
+                    hist.add("emit.ok.folded.kept");
+                    "ok".into()
+                } else if *k2 != to && !b.any_float_kind {
+                    format!("FAIL:emit literal {} in a {} context printed as {} (kind {})", lit, to, printed, k2)
+                } else if got != want || b.neg {
+                    format!("FAIL:emit literal {} folded to {} ({:x}) printed as {} ({:x})", lit, to, want, printed, got)
+                } else {
+                    hist.add(&format!("emit.ok.folded.{}", to));
+                    "ok".into()
+                }
+            }
+            // the literal may also stay as written behind a conversion the output spells out
+            RefNum::Int { value: v2, .. } => match &a {
+                RefNum::Int { value: v1, .. } if v1 == v2 && !b.neg => "ok".into(),
+                _ => format!("FAIL:emit literal {} in a {} context printed as integer literal {}", lit, to, printed),
+            },
+            RefNum::NotNumeric => format!("FAIL:emit literal {} printed as {} which is not a numeric literal", lit, printed),
+        };
+    }
     match (&a, &b.num) {
         (RefNum::NotNumeric, _) => "SKIP:source text is not one numeric literal".into(),
         (RefNum::Int { kind: k1, value: v1 }, RefNum::Int { kind: k2, value: v2 }) => {
@@ -398,11 +605,21 @@ fn emit_oracle(lit: &str, printed: &str, tgt: Tgt, prog: &Program, hist: &mut Hi
             "ok".into()
         }
         (RefNum::Float { kind: k1, bits64: b1 }, RefNum::Float { kind: k2, bits64: b2 }) => {
-            let want_kind = prog.want_kind.unwrap_or(k1);
+            let mut want_kind = prog.want_kind.unwrap_or(k1);
+            if prog.convertible && *k1 == "Float" && *k2 == "Float32" {
+                // the context names `float`: the typer folded the untyped literal into a single (narrowed once)
+                want_kind = "Float32";
+            }
             if want_kind != *k2 && !b.any_float_kind {
                 return format!("FAIL:emit float literal {} printed as {} (kind {} became {})", lit, printed, k1, k2);
             }
-            let v1 = if prog.narrow_to_f32 { ref_narrow32(*b1) as u64 } else { narrowed(k1, *b1) };
+            let v1 = if prog.narrow_to_f32 || (prog.convertible && *k1 == "Float" && (want_kind == "Float32" && !b.any_float_kind)) {
+                ref_narrow32(*b1) as u64
+            } else {
+                narrowed(k1, *b1)
+            };
+            // Metal's `INFINITY` has no kind of its own: an untyped literal beyond the singles that the context folded to `float`
+            let v1 = if prog.convertible && *k1 == "Float" && b.any_float_kind && ref_narrow32(*b1) == 0x7f80_0000 { F64.inf() } else { v1 };
             let v2 = if b.any_float_kind { narrowed(want_kind, *b2) } else { narrowed(k2, *b2) };
             if v1 != v2 {
                 return format!("FAIL:emit {} literal {} ({:x}) printed as {} ({:x})", k1, lit, v1, printed, v2);
@@ -859,15 +1076,31 @@ fn gen_emit_literal(rng: &mut Rng, hist: &mut Hist) -> String {
 
 pub fn generate(args: &Args, rng: &mut Rng, out: &mut Out, hist: &mut Hist) -> (u64, u64) {
     // (4) literals through the whole compiler: every context, every target
-    let n_emit = if args.thorough() { 120_000 } else { 5_000 };
+    let n_emit = if args.thorough() { 200_000 } else { 9_000 };
     let n_emit = args.n.map(|n| n / 4).unwrap_or(n_emit);
     let mut emitted = 0u64;
     let mut tries = 0u64;
     while emitted < n_emit && tries < n_emit * 20 {
         tries += 1;
-        let lit = gen_emit_literal(rng, hist);
+        let mut lit = gen_emit_literal(rng, hist);
         let tgt = *rng.pick(&[Tgt::Dx, Tgt::Dx, Tgt::Msl, Tgt::Msl, Tgt::Vk]);
-        let ctx = *rng.pick(&["stmt", "stmt", "stmt", "neg", "init", "initf", "initneg", "enumcast", "arr", "enumv", "targ", "incl", "def", "paste"]);
+        // half of the cases in the 12 original contexts, half in the declaration / statement forms of TEMPLATES
+        let ctx = if rng.chance(1, 2) {
+            *rng.pick(&["stmt", "stmt", "stmt", "neg", "init", "initf", "initneg", "enumcast", "arr", "enumv", "targ", "incl", "def", "paste"])
+        } else {
+            let t = rng.pick(TEMPLATES);
+            if t.1 {
+                // integer-only forms: sizes, labels, attribute arguments (1 .. 2^16, every base, with and without `u`)
+                let v = if rng.chance(1, 2) { rng.range(1, 64) as u64 } else { rng.range(1, 65536) as u64 };
+                let body = match rng.below(3) {
+                    0 => format!("{}", v),
+                    1 => format!("0x{:x}", v),
+                    _ => format!("0{:o}", v),
+                };
+                lit = format!("{}{}", body, rng.pick(&["", "", "u", "U"]));
+            }
+            t.0
+        };
         let field = format!("{}.{}", tgt.name(), ctx);
         let (obs, orc) = run_emit(&field, &lit, hist);
         if orc.starts_with("SKIP:") && !orc.starts_with("SKIP:rejected") {
